@@ -20,6 +20,10 @@ import time
 VERIF = os.path.dirname(os.path.abspath(__file__))
 sys.path.insert(0, VERIF)
 REPO = os.environ.get('VERIF_REPO', '/repo')
+class _NoTextUnits(Exception):
+    pass
+
+
 PROOF_INTERNAL = re.compile(r'^[^:]*:(inv\.(entry|preserve)|variant)[#@]')
 VENV_PY = '/venv/bin/python'
 
@@ -137,6 +141,8 @@ def main():
             thorough['seq_axiom_instances_checked_against_cpython'] = pyseqs.selftest()
             # TEXT theory (contracts/formats_chars.py): CPython against every lemma schema and against the copy of the Lean definitions;
             # CPython against the Lean definitions themselves (#eval); the precondition of lemma.cxt.roundtrip is used by its proof
+            if not any(u.startswith(('lemma.cxt.', 'lemma.table.', 'lemma.fimi.', 'lemma.csv.chars')) for u in units):
+                raise _NoTextUnits()      # the TEXT theory serves the character-level units only (C12)
             from pyvc import texts as pytexts
             from contracts import formats_chars as pychars
             thorough['text_lemma_instances_checked_against_cpython'] = pytexts.selftest()
@@ -147,6 +153,8 @@ def main():
             thorough['table_roundtrip_weakened_preconditions_refused'] = pychars_table.necessity() + pychars_table.necessity_fimi()
             from contracts import formats_chars_csv as pychars_csv          # the same for the csv format in the excel dialect (DESIGN 11.18)
             thorough['csv_roundtrip_weakened_preconditions_refused'] = pychars_csv.necessity()
+        except _NoTextUnits:
+            pass
         except AssertionError as e:
             selfcheck_problems.append('theory axiom refuted by CPython: %r' % (e,))
         os.environ.setdefault('PYVC_Z3_TIMEOUT_MS', '5000')
